@@ -17,7 +17,7 @@ def run(tier, work):
     v = vlib.Verdict("C08", work)
     fixed = os.environ.get("VERIF_C08_DESIGN", "pinned")
     mc = storelib.tlc_mc(work, "ReadBufferMC_%s.cfg" % ("fixed_big" if thorough else "fixed"), module="ReadBuffer")
-    simdir, n = storelib.tlc_sim(work, "ReadBufferSim.cfg", 1500 if thorough else 250, 401, "rb", module="ReadBufferSim")
+    simdir, n = storelib.tlc_sim(work, "ReadBufferSim.cfg", 1500 if thorough else 250, 601, "rb", module="ReadBufferSim")
     out = storelib.run_driver(work, "TestVerif_C08Buffer", "buf", env={"VERIF_IN": simdir, "VERIF_N": 120 if thorough else 20})
     tf = os.path.join(out, "buffer.ndjson")
     res = storelib.validate(work, tf, "buf", module="ReadBufferTrace", cfg="ReadBufferTrace.cfg")
